@@ -705,8 +705,17 @@ struct Engine
 
         // 1. disappeared segments
         for (auto &s : segs) {
-            if (!s.present || rot.count(s.plain_name))
+            if (!s.present)
                 continue;
+            if (rot.count(s.plain_name)) {
+                // Still a file of that name - but with other content: the old file was removed and the name
+                // taken again by a later rotation. Only C09 forbids reusing a name (it is judged there, below);
+                // for the other properties this is a removal followed by a new rotated file.
+                auto &o = rot[s.plain_name];
+                bool reused = o.ok && o.content != s.content && s.created_op < cur_op && !is("C09") && !is("C08");
+                if (!reused)
+                    continue;
+            }
             s.present = false;
             removals++;
             projh("rm");
@@ -1235,6 +1244,38 @@ std::string crash_where(const Engine::Crash &c)
             + (c.torn ? " with only " + std::to_string(c.torn) + " bytes of that write on disk" : "");
 }
 
+// Order new rotated files by matching their contents against the expected byte stream; what cannot be placed
+// keeps the (date, index) order at the end. Names need not reflect rotation order: a name can be taken again
+// once retention has removed its former owner.
+template<typename Map>
+std::vector<std::string> order_by_content(std::vector<std::string> names, Map &rot, const std::string &want, size_t start = 0)
+{
+    std::vector<std::string> out;
+    std::vector<bool> used(names.size(), false);
+    size_t p = start;
+    for (;;) {
+        bool placed = false;
+        for (size_t i = 0; i < names.size(); i++) {
+            if (used[i] || !rot[names[i]].ok)
+                continue;
+            const std::string &c = rot[names[i]].content;
+            if (c.empty() || (p + c.size() <= want.size() && want.compare(p, c.size(), c) == 0)) {
+                used[i] = true;
+                out.push_back(names[i]);
+                p += c.size();
+                placed = true;
+                break;
+            }
+        }
+        if (!placed)
+            break;
+    }
+    for (size_t i = 0; i < names.size(); i++)
+        if (!used[i])
+            out.push_back(names[i]);
+    return out;
+}
+
 // (a) every record that had completely reached write(2) is in an intact file
 bool crash_check_a(Engine &e, const Engine::Crash &c, std::string *why, std::string *T_out)
 {
@@ -1256,6 +1297,10 @@ bool crash_check_a(Engine &e, const Engine::Crash &c, std::string *why, std::str
             return false;
         }
         if (it->second.content != ps.second) {
+            if (retention) {
+                old_names.erase(ps.first); // removed by retention, the name taken again by this rotation
+                continue;
+            }
             *why = "rotated file " + ps.first + " has different content";
             return false;
         }
@@ -1274,6 +1319,7 @@ bool crash_check_a(Engine &e, const Engine::Crash &c, std::string *why, std::str
         *why = "the file just rotated to " + c.cur_X + " exists neither plain nor compressed";
         return false;
     }
+    fresh = order_by_content(fresh, rot, e.rec_stream(c.pending));
     std::string T;
     for (auto &n : fresh) {
         if (!rot[n].ok) {
@@ -1391,6 +1437,10 @@ bool crash_check_b(Engine &e, const Engine::Crash &c, std::string *why)
             continue;
         }
         if (it->second.content != kv.second.content) {
+            if (retention) {
+                oldn.erase(kv.first);
+                continue;
+            }
             *why = "after the restart rotated file " + kv.first + " has different content";
             return false;
         }
@@ -1405,6 +1455,7 @@ bool crash_check_b(Engine &e, const Engine::Crash &c, std::string *why)
             return x.date < y.date;
         return x.index < y.index;
     });
+    fresh = order_by_content(fresh, rot1, A0 + NEW);
     std::string T;
     for (auto &n : fresh) {
         if (!rot1[n].ok) {
